@@ -7,10 +7,12 @@ REG = {}
 EXTRA = {}
 
 
-def job(h, secs=60, jobs=1, allow=(), paths=1000000, qto=None, xproc=0, **p):
+def job(h, secs=60, jobs=1, allow=(), paths=1000000, qto=None, xproc=0, probe=False, **p):
     d = dict(h=h, p=p, secs=secs, jobs=jobs, allow=list(allow), paths=paths)
     if xproc:
         d["xproc"] = xproc
+    if probe:
+        d["probe"] = True
     if qto:
         d["qto"] = qto
     return d
